@@ -35,15 +35,16 @@ Record senv := SEnv {
   e_sws : list (option key * Z);         (* stopwatch handle -> (its timer, if it is a timer's; start time) *)
   e_calls : list callsite;
   e_clk : nat;                           (* clock readings taken so far *)
-  e_reg : reg                            (* closed / dropped scopes, table epochs *)
+  e_reg : reg;                           (* closed / dropped scopes, table epochs *)
+  e_execs : list (callsite * Z)          (* execution handle -> (its call site, start time) *)
 }.
 
 Definition sinit (root : bytes * tags) : senv :=
   let r := (jn (sepz sz) (sn sz (fst root)), tmerge [] (stags sz (snd root))) in
-  SEnv [r] [] 0 [] [] 0 (reg_init r).
+  SEnv [r] [] 0 [] [] 0 (reg_init r) [].
 
 Definition e_with_reg (e : senv) (r : reg) : senv :=
-  SEnv (e_scopes e) (e_timers e) (e_nh e) (e_sws e) (e_calls e) (e_clk e) r.
+  SEnv (e_scopes e) (e_timers e) (e_nh e) (e_sws e) (e_calls e) (e_clk e) r (e_execs e).
 
 (* one call: the new environment and the values timers must receive during it *)
 Definition sstep (fl : flavour) (clk : nat -> Z) (e : senv) (o : op) : senv * list (key * Z) :=
@@ -52,20 +53,20 @@ Definition sstep (fl : flavour) (clk : nat -> Z) (e : senv) (o : op) : senv * li
       match nth_error (e_scopes e) i with
       | Some sc =>
           let v := (jn (sepz sz) (fst sc ++ sn sz p), snd sc) in
-          (SEnv (e_scopes e ++ [v]) (e_timers e) (e_nh e) (e_sws e) (e_calls e) (e_clk e) (reg_note (e_reg e) v), [])
+          (SEnv (e_scopes e ++ [v]) (e_timers e) (e_nh e) (e_sws e) (e_calls e) (e_clk e) (reg_note (e_reg e) v) (e_execs e), [])
       | None => (e, [])
       end
   | OTag i t =>
       match nth_error (e_scopes e) i with
       | Some sc =>
           let v := (fst sc, tmerge (snd sc) (stags sz t)) in
-          (SEnv (e_scopes e ++ [v]) (e_timers e) (e_nh e) (e_sws e) (e_calls e) (e_clk e) (reg_note (e_reg e) v), [])
+          (SEnv (e_scopes e ++ [v]) (e_timers e) (e_nh e) (e_sws e) (e_calls e) (e_clk e) (reg_note (e_reg e) v) (e_execs e), [])
       | None => (e, [])
       end
   | OTimer i n =>
       match nth_error (e_scopes e) i with
       | Some sc => (SEnv (e_scopes e) (e_timers e ++ [mkkey sc (sn sz n) (ep_of (r_ep (e_reg e)) sc)])
-                         (e_nh e) (e_sws e) (e_calls e) (e_clk e) (e_reg e), [])
+                         (e_nh e) (e_sws e) (e_calls e) (e_clk e) (e_reg e) (e_execs e), [])
       | None => (e, [])
       end
   | ORecord t d =>
@@ -78,22 +79,22 @@ Definition sstep (fl : flavour) (clk : nat -> Z) (e : senv) (o : op) : senv * li
       else (e_with_reg e (reg_pass (is_test fl) (e_reg e)), [])
   | OStart t =>
       match nth_error (e_timers e) t with
-      | Some k => (SEnv (e_scopes e) (e_timers e) (e_nh e) (e_sws e ++ [(Some k, clk (e_clk e))]) (e_calls e) (S (e_clk e)) (e_reg e), [])
+      | Some k => (SEnv (e_scopes e) (e_timers e) (e_nh e) (e_sws e ++ [(Some k, clk (e_clk e))]) (e_calls e) (S (e_clk e)) (e_reg e) (e_execs e), [])
       | None => (e, [])
       end
   | OHist i n spec =>
       match nth_error (e_scopes e) i with
-      | Some sc => (SEnv (e_scopes e) (e_timers e) (S (e_nh e)) (e_sws e) (e_calls e) (e_clk e) (e_reg e), [])
+      | Some sc => (SEnv (e_scopes e) (e_timers e) (S (e_nh e)) (e_sws e) (e_calls e) (e_clk e) (e_reg e) (e_execs e), [])
       | None => (e, [])
       end
   | OHStart h =>
       if (h <? e_nh e)%nat
-      then (SEnv (e_scopes e) (e_timers e) (e_nh e) (e_sws e ++ [(None, clk (e_clk e))]) (e_calls e) (S (e_clk e)) (e_reg e), [])
+      then (SEnv (e_scopes e) (e_timers e) (e_nh e) (e_sws e ++ [(None, clk (e_clk e))]) (e_calls e) (S (e_clk e)) (e_reg e) (e_execs e), [])
       else (e, [])
   | OStop w =>
       match nth_error (e_sws e) w with
       | Some (r, st) =>
-          (SEnv (e_scopes e) (e_timers e) (e_nh e) (e_sws e) (e_calls e) (S (e_clk e)) (e_reg e),
+          (SEnv (e_scopes e) (e_timers e) (e_nh e) (e_sws e) (e_calls e) (S (e_clk e)) (e_reg e) (e_execs e),
            match r with Some k => [(k, sat64 (clk (e_clk e) - st))] | None => [] end)
       | None => (e, [])
       end
@@ -106,13 +107,13 @@ Definition sstep (fl : flavour) (clk : nat -> Z) (e : senv) (o : op) : senv * li
           let cl := call_lat_scope sc n in
           (SEnv (e_scopes e) (e_timers e) (e_nh e) (e_sws e)
                 (e_calls e ++ [(sc, n, (ep_of ep ce, ep_of ep cs, ep_of ep cl))]) (e_clk e)
-                (reg_note (reg_note (reg_note (e_reg e) ce) cs) cl), [])
+                (reg_note (reg_note (reg_note (e_reg e) ce) cs) cl) (e_execs e), [])
       | None => (e, [])
       end
   | OExec c b =>
       match nth_error (e_calls e) c with
       | Some cc =>
-          (SEnv (e_scopes e) (e_timers e) (e_nh e) (e_sws e) (e_calls e) (S (S (e_clk e))) (e_reg e),
+          (SEnv (e_scopes e) (e_timers e) (e_nh e) (e_sws e) (e_calls e) (S (S (e_clk e))) (e_reg e) (e_execs e),
            [(call_lat_key cc, sat64 (clk (S (e_clk e)) - clk (e_clk e)))])
       | None => (e, [])
       end
@@ -123,6 +124,19 @@ Definition sstep (fl : flavour) (clk : nat -> Z) (e : senv) (o : op) : senv * li
           else if scope_eqb sc (r_root (e_reg e))
           then (e_with_reg e (reg_rootclose (is_test fl) (e_reg e)), [])
           else (e_with_reg e (reg_close (e_reg e) sc), [])
+      | None => (e, [])
+      end
+  | OBegin c =>
+      match nth_error (e_calls e) c with
+      | Some cc => (SEnv (e_scopes e) (e_timers e) (e_nh e) (e_sws e) (e_calls e) (S (e_clk e)) (e_reg e)
+                         (e_execs e ++ [(cc, clk (e_clk e))]), [])
+      | None => (e, [])
+      end
+  | OEnd x b =>
+      match nth_error (e_execs e) x with
+      | Some (cc, st) =>
+          (SEnv (e_scopes e) (e_timers e) (e_nh e) (e_sws e) (e_calls e) (S (e_clk e)) (e_reg e) (e_execs e),
+           [(call_lat_key cc, sat64 (clk (e_clk e) - st))])
       | None => (e, [])
       end
   end.
@@ -405,6 +419,7 @@ Record Ext (s s' : state) : Prop := {
   x_fruns : fruns s' = fruns s;
   x_rets : rets s' = rets s;
   x_reg : sreg s' = sreg s;
+  x_execs : execs s' = execs s;
   x_tkeys : exists x, tkeys s' = tkeys s ++ x;
   x_ckeys : exists y, ckeys s' = ckeys s ++ y
 }.
@@ -477,9 +492,9 @@ Proof.
     { rewrite (kfind_new _ _ Ek). unfold ckeys. now rewrite map_length. }
     assert (forall s', timers s' = timers s -> scopes s' = scopes s -> thand s' = thand s ->
               hhand s' = hhand s -> sws s' = sws s -> calls s' = calls s -> nclk s' = nclk s ->
-              fruns s' = fruns s -> rets s' = rets s -> sreg s' = sreg s ->
+              fruns s' = fruns s -> rets s' = rets s -> sreg s' = sreg s -> execs s' = execs s ->
               ckeys s' = ckeys s ++ [k] -> Ext s s') as HE.
-    { intros s' H1 H2 H3 H4 H5 H6 H7 H8 H9 H11 H10. constructor; try assumption.
+    { intros s' H1 H2 H3 H4 H5 H6 H7 H8 H9 H11 H12 H10. constructor; try assumption.
       - exists []. unfold tkeys. now rewrite H1, app_nil_r.
       - now exists [k]. }
     destruct (has_cached fl); cbn [fst snd].
@@ -508,8 +523,9 @@ Proof.
   - split; [apply Ext_refl | assumption].
   - assert (forall s', timers s' = timers s -> counters s' = counters s -> scopes s' = scopes s ->
               thand s' = thand s -> hhand s' = hhand s -> sws s' = sws s -> calls s' = calls s ->
-              nclk s' = nclk s -> fruns s' = fruns s -> rets s' = rets s -> sreg s' = sreg s -> Ext s s') as HE.
-    { intros s' H1 H0 H2 H3 H4 H5 H6 H7 H8 H9 H11. constructor; try assumption.
+              nclk s' = nclk s -> fruns s' = fruns s -> rets s' = rets s -> sreg s' = sreg s ->
+              execs s' = execs s -> Ext s s') as HE.
+    { intros s' H1 H0 H2 H3 H4 H5 H6 H7 H8 H9 H11 H12. constructor; try assumption.
       - exists []. unfold tkeys. now rewrite H1, app_nil_r.
       - exists []. unfold ckeys. now rewrite H0, app_nil_r. }
     destruct (has_cached fl); cbn [fst snd].
@@ -633,6 +649,9 @@ Definition call_rel (tk ck : list key) (c : nat * nat * nat) (sc : callsite) : P
   href ck (fst (fst c)) (call_err_key sc) /\ href ck (snd (fst c)) (call_ok_key sc) /\
   href tk (snd c) (call_lat_key sc).
 
+Definition exec_rel (tk ck : list key) (m : nat * (nat * nat * nat) * Z) (sp : callsite * Z) : Prop :=
+  snd m = snd sp /\ call_rel tk ck (snd (fst m)) (fst sp).
+
 Record Sim (s : state) (e : senv) : Prop := {
   sim_scopes : scopes s = e_scopes e;
   sim_thand : Forall2 (href (tkeys s)) (thand s) (e_timers e);
@@ -640,7 +659,8 @@ Record Sim (s : state) (e : senv) : Prop := {
   sim_sws : Forall2 (sw_rel (tkeys s)) (sws s) (e_sws e);
   sim_calls : Forall2 (call_rel (tkeys s) (ckeys s)) (calls s) (e_calls e);
   sim_clk : nclk s = e_clk e;
-  sim_reg : sreg s = e_reg e
+  sim_reg : sreg s = e_reg e;
+  sim_execs : Forall2 (exec_rel (tkeys s) (ckeys s)) (execs s) (e_execs e)
 }.
 
 Lemma href_app keys x oi k : href keys oi k -> href (keys ++ x) oi k.
@@ -656,6 +676,8 @@ Proof.
     destruct r, sp; auto. now apply href_app.
   - rewrite x_calls0, Hx, Hy. eapply Forall2_imp; [|exact sim_calls0].
     intros c sc (H1 & H2 & H3). repeat split; now apply href_app.
+  - rewrite x_execs0, Hx, Hy. eapply Forall2_imp; [|exact sim_execs0].
+    intros m sp [H0 (H1 & H2 & H3)]. split; [exact H0|]. repeat split; now apply href_app.
 Qed.
 
 Lemma sim_init root : Sim (init sz root) (sinit root).
@@ -673,8 +695,8 @@ Lemma step_sim fl clk s e acc o :
   Sim (step sz fl clk s o) (fst (sstep fl clk e o)) /\
   DelI fl (step sz fl clk s o) (acc ++ snd (sstep fl clk e o)).
 Proof.
-  intros HS HD. pose proof HS as [Hsc Hth Hnh Hsw Hca Hck Hrg].
-  destruct o as [i p|i t|i n|t d| |t|i n spec|h|w|i n|c b|i]; cbn [step sstep].
+  intros HS HD. pose proof HS as [Hsc Hth Hnh Hsw Hca Hck Hrg Hex].
+  destruct o as [i p|i t|i n|t d| |t|i n spec|h|w|i n|c b|i|c|x b]; cbn [step sstep].
   - (* SubScope *)
     rewrite Hsc. destruct (nth_error (e_scopes e) i) as [sc|]; cbn [fst snd]; rewrite app_nil_r; [|auto].
     split; [constructor; cbn; auto; now rewrite ?Hsc, ?Hrg|].
@@ -687,7 +709,7 @@ Proof.
     rewrite Hsc, Hrg. destruct (nth_error (e_scopes e) i) as [sc|]; cbn [fst snd]; rewrite app_nil_r; [|auto].
     set (k := mkkey sc (sn sz n) (ep_of (r_ep (e_reg e)) sc)).
     destruct (get_timer_spec fl s k acc HD) as (HE & HD' & Hk).
-    pose proof (Sim_ext _ _ _ HS HE) as [Hsc' Hth' Hnh' Hsw' Hca' Hck' Hrg'].
+    pose proof (Sim_ext _ _ _ HS HE) as [Hsc' Hth' Hnh' Hsw' Hca' Hck' Hrg' Hex'].
     split; [constructor; cbn; auto|].
     + apply Forall2_snoc; assumption.
     + eapply (DelI_same _ _ _ acc); [| | |exact HD']; reflexivity.
@@ -699,7 +721,7 @@ Proof.
   - (* report pass *)
     rewrite Hrg. destruct (r_rootclosed (e_reg e)); cbn [fst snd]; rewrite app_nil_r; [auto|].
     destruct (pass_spec fl s acc HD) as [HE HD'].
-    pose proof (Sim_ext _ _ _ HS HE) as [Hsc' Hth' Hnh' Hsw' Hca' Hck' Hrg'].
+    pose proof (Sim_ext _ _ _ HS HE) as [Hsc' Hth' Hnh' Hsw' Hca' Hck' Hrg' Hex'].
     split; [constructor; cbn; auto; now rewrite Hrg'|].
     eapply (DelI_same _ _ _ acc); [| | |exact HD']; reflexivity.
   - (* timer.Start *)
@@ -712,7 +734,7 @@ Proof.
   - (* Histogram *)
     rewrite Hsc. destruct (nth_error (e_scopes e) i) as [sc|]; cbn [fst snd]; rewrite app_nil_r; [|auto].
     destruct (get_hist_spec fl s (mkkey sc (sn sz n) (ep_of (r_ep (sreg s)) sc)) spec acc HD) as (HE & HD').
-    pose proof (Sim_ext _ _ _ HS HE) as [Hsc' Hth' Hnh' Hsw' Hca' Hck' Hrg'].
+    pose proof (Sim_ext _ _ _ HS HE) as [Hsc' Hth' Hnh' Hsw' Hca' Hck' Hrg' Hex'].
     split; [constructor; cbn; auto|].
     + rewrite app_length. cbn. lia.
     + eapply (DelI_same _ _ _ acc); [| | |exact HD']; reflexivity.
@@ -734,7 +756,7 @@ Proof.
     destruct Hn as [Hst Hr]. cbn in Hst, Hr. subst st'.
     set (s1 := set_nclk s (S (nclk s))).
     assert (DelI fl s1 acc) as HD1 by (apply (DelI_same _ s); auto).
-    assert (Sim s1 (SEnv (e_scopes e) (e_timers e) (e_nh e) (e_sws e) (e_calls e) (S (e_clk e)) (e_reg e))) as HS1
+    assert (Sim s1 (SEnv (e_scopes e) (e_timers e) (e_nh e) (e_sws e) (e_calls e) (S (e_clk e)) (e_reg e) (e_execs e))) as HS1
       by (constructor; cbn; auto).
     destruct r as [oi|oi], sp as [k|]; try contradiction.
     + destruct (deliver_spec fl s1 oi k (sat64 (clk (nclk s) - st)) acc HD1 Hr) as [HE HD'].
@@ -754,10 +776,10 @@ Proof.
     destruct (get_timer_spec fl (fst r2) kl acc HD2) as (HE3 & HD3 & Hk3).
     set (r3 := get_timer fl (fst r2) kl) in *.
     pose proof (Ext_trans _ _ _ HE1 (Ext_trans _ _ _ HE2 HE3)) as HE.
-    pose proof (Sim_ext _ _ _ HS HE) as [Hsc' Hth' Hnh' Hsw' Hca' Hck' Hrg'].
+    pose proof (Sim_ext _ _ _ HS HE) as [Hsc' Hth' Hnh' Hsw' Hca' Hck' Hrg' Hex'].
     split; [constructor; cbn; auto|].
     + apply Forall2_snoc; [assumption|]. unfold call_rel; cbn [fst snd].
-      destruct HE2 as [_ _ _ _ _ _ _ _ _ _ [y2 Hy2]], HE3 as [_ _ _ _ _ _ _ _ _ _ [y3 Hy3]].
+      destruct (x_ckeys _ _ HE2) as [y2 Hy2], (x_ckeys _ _ HE3) as [y3 Hy3].
       split; [|split].
       * unfold href. change (kfind ke (ckeys (fst r3)) = Some (snd r1)).
         rewrite Hy3, Hy2. now apply kfind_app, kfind_app.
@@ -773,14 +795,14 @@ Proof.
     destruct Hn as (_ & _ & Hl). cbn [fst snd] in Hl.
     set (s1 := set_nclk (set_fruns (set_nclk s (S (nclk s))) (fruns s ++ [(c, b)])) (S (S (nclk s)))).
     assert (DelI fl s1 acc) as HD1 by (apply (DelI_same _ s); auto).
-    assert (Sim s1 (SEnv (e_scopes e) (e_timers e) (e_nh e) (e_sws e) (e_calls e) (S (S (e_clk e))) (e_reg e))) as HS1
+    assert (Sim s1 (SEnv (e_scopes e) (e_timers e) (e_nh e) (e_sws e) (e_calls e) (S (S (e_clk e))) (e_reg e) (e_execs e))) as HS1
       by (constructor; cbn; auto).
     cbn [nclk set_fruns set_nclk]. fold s1.
     destruct (deliver_spec fl s1 ti (call_lat_key cc) (sat64 (clk (S (nclk s)) - clk (nclk s))) acc HD1 Hl) as [HE HD'].
     set (s2 := deliver fl s1 ti (sat64 (clk (S (nclk s)) - clk (nclk s)))) in *.
     destruct (inc_counter_spec fl s2 (if b then ce else cs) _ HD') as [HE3 HD3].
     rewrite <- Hck in HS1 |- *. split.
-    + pose proof (Sim_ext _ _ _ HS1 (Ext_trans _ _ _ HE HE3)) as [Hsc' Hth' Hnh' Hsw' Hca' Hck' Hrg'].
+    + pose proof (Sim_ext _ _ _ HS1 (Ext_trans _ _ _ HE HE3)) as [Hsc' Hth' Hnh' Hsw' Hca' Hck' Hrg' Hex'].
       constructor; cbn; auto.
     + eapply (DelI_same _ _ _ _); [| | |exact HD3]; reflexivity.
   - (* Close *)
@@ -788,11 +810,34 @@ Proof.
     destruct (r_rootclosed (e_reg e)); cbn [fst snd]; [rewrite app_nil_r; auto|].
     destruct (scope_eqb sc (r_root (e_reg e))); cbn [fst snd]; rewrite app_nil_r.
     + destruct (pass_spec fl s acc HD) as [HE HD'].
-      pose proof (Sim_ext _ _ _ HS HE) as [Hsc' Hth' Hnh' Hsw' Hca' Hck' Hrg'].
+      pose proof (Sim_ext _ _ _ HS HE) as [Hsc' Hth' Hnh' Hsw' Hca' Hck' Hrg' Hex'].
       split; [constructor; cbn; auto; now rewrite Hrg'|].
       eapply (DelI_same _ _ _ acc); [| | |exact HD']; reflexivity.
     + split; [constructor; cbn; auto; now rewrite Hrg|].
       apply (DelI_same _ s); auto.
+  - (* an execution begins *)
+    pose proof (Forall2_nth _ _ _ c Hca) as Hn.
+    destruct (nth_error (calls s) c) as [h|], (nth_error (e_calls e) c) as [cc|]; try contradiction;
+      cbn [fst snd]; rewrite app_nil_r; [|auto].
+    split; [constructor; cbn; auto|].
+    + apply Forall2_snoc; [assumption|]. split; cbn; [now rewrite Hck | exact Hn].
+    + apply (DelI_same _ s); auto.
+  - (* an execution ends *)
+    pose proof (Forall2_nth _ _ _ x Hex) as Hn.
+    destruct (nth_error (execs s) x) as [[[c [[ce cs] ti]] st]|], (nth_error (e_execs e) x) as [[cc st']|]; try contradiction;
+      cbn [fst snd]; [|rewrite app_nil_r; auto].
+    destruct Hn as [Hst (_ & _ & Hl)]. cbn [fst snd] in Hst, Hl. subst st'.
+    set (s1 := set_fruns (set_nclk s (S (nclk s))) (fruns s ++ [(c, b)])).
+    assert (DelI fl s1 acc) as HD1 by (apply (DelI_same _ s); auto).
+    assert (Sim s1 (SEnv (e_scopes e) (e_timers e) (e_nh e) (e_sws e) (e_calls e) (S (e_clk e)) (e_reg e) (e_execs e))) as HS1
+      by (constructor; cbn; auto).
+    destruct (deliver_spec fl s1 ti (call_lat_key cc) (sat64 (clk (nclk s) - st)) acc HD1 Hl) as [HE HD'].
+    set (s2 := deliver fl s1 ti (sat64 (clk (nclk s) - st))) in *.
+    destruct (inc_counter_spec fl s2 (if b then ce else cs) _ HD') as [HE3 HD3].
+    rewrite <- Hck in HS1 |- *. split.
+    + pose proof (Sim_ext _ _ _ HS1 (Ext_trans _ _ _ HE HE3)) as [Hsc' Hth' Hnh' Hsw' Hca' Hck' Hrg' Hex'].
+      constructor; cbn; auto.
+    + eapply (DelI_same _ _ _ _); [| | |exact HD3]; reflexivity.
 Qed.
 
 Lemma fold_sim fl clk ops s e acc :
@@ -951,7 +996,7 @@ Proof.
   assert (forall s' : state, sws s' = sws s -> hhand s' = hhand s ->
             (exists x, sws s' = sws s ++ x) /\ (exists y, hhand s' = hhand s ++ y)) as Hsame.
   { intros s' H1 H2. split; exists []; now rewrite app_nil_r. }
-  destruct o as [i p|i t|i n|t d| |t|i n spec|h|w|i n|c b|i]; cbn [step].
+  destruct o as [i p|i t|i n|t d| |t|i n spec|h|w|i n|c b|i|c|x b]; cbn [step].
   - destruct (nth_error (scopes s) i); apply Hsame; reflexivity.
   - destruct (nth_error (scopes s) i); apply Hsame; reflexivity.
   - destruct (nth_error (scopes s) i); [|apply Hsame; reflexivity].
@@ -977,6 +1022,57 @@ Proof.
   - destruct (nth_error (scopes s) i); [|apply Hsame; reflexivity].
     destruct (r_rootclosed (sreg s)); [apply Hsame; reflexivity|].
     destruct (scope_eqb _ _); apply Hsame; cbn; try reflexivity; apply pass_frame.
+  - destruct (nth_error (calls s) c); apply Hsame; reflexivity.
+  - destruct (nth_error (execs s) x) as [[[c [[ce cs] ti]] st]|]; [|apply Hsame; reflexivity].
+    apply Hsame; cbn; [rewrite (proj1 (deliver_frame _ _ _ _)) | rewrite (proj2 (deliver_frame _ _ _ _))]; reflexivity.
+Qed.
+
+Ltac xframe_tac :=
+  repeat match goal with
+         | |- context [match ?x with _ => _ end] => destruct x
+         end; reflexivity.
+Lemma get_timer_execs fl s k : execs (fst (get_timer fl s k)) = execs s.
+Proof. unfold get_timer. xframe_tac. Qed.
+Lemma get_counter_execs fl s k : execs (fst (get_counter fl s k)) = execs s.
+Proof. unfold get_counter. xframe_tac. Qed.
+Lemma get_hist_execs fl s k spec : execs (fst (get_hist fl s k spec)) = execs s.
+Proof. unfold get_hist. xframe_tac. Qed.
+Lemma deliver_execs fl s oi d : execs (deliver fl s oi d) = execs s.
+Proof. unfold deliver. xframe_tac. Qed.
+Lemma pass_execs fl s : execs (pass fl s) = execs s.
+Proof. unfold pass. xframe_tac. Qed.
+
+Lemma step_execs fl clk s o : exists z, execs (step sz fl clk s o) = execs s ++ z.
+Proof.
+  assert (forall s' : state, execs s' = execs s -> exists z, execs s' = execs s ++ z) as Hsame.
+  { intros s' H1. exists []; now rewrite app_nil_r. }
+  destruct o as [i p|i t|i n|t d| |t|i n spec|h|w|i n|c b|i|c|x b]; cbn [step].
+  - destruct (nth_error (scopes s) i); apply Hsame; reflexivity.
+  - destruct (nth_error (scopes s) i); apply Hsame; reflexivity.
+  - destruct (nth_error (scopes s) i); [|apply Hsame; reflexivity]. apply Hsame; cbn; apply get_timer_execs.
+  - destruct (nth_error (thand s) t); [|apply Hsame; reflexivity]. apply Hsame; apply deliver_execs.
+  - destruct (r_rootclosed (sreg s)); [apply Hsame; reflexivity|]. apply Hsame; cbn; apply pass_execs.
+  - destruct (nth_error (thand s) t); apply Hsame; reflexivity.
+  - destruct (nth_error (scopes s) i); [|apply Hsame; reflexivity]. apply Hsame; cbn; apply get_hist_execs.
+  - destruct (nth_error (hhand s) h); apply Hsame; reflexivity.
+  - destruct (nth_error (sws s) w) as [[[oi|oi] st]|]; apply Hsame; try reflexivity. now rewrite deliver_execs.
+  - destruct (nth_error (scopes s) i); [|apply Hsame; reflexivity].
+    apply Hsame; cbn. now rewrite get_timer_execs, !get_counter_execs.
+  - destruct (nth_error (calls s) c) as [[[ce cs] ti]|]; [|apply Hsame; reflexivity].
+    apply Hsame; cbn. now rewrite deliver_execs.
+  - destruct (nth_error (scopes s) i); [|apply Hsame; reflexivity].
+    destruct (r_rootclosed (sreg s)); [apply Hsame; reflexivity|].
+    destruct (scope_eqb _ _); apply Hsame; cbn; try reflexivity; apply pass_execs.
+  - destruct (nth_error (calls s) c); [|apply Hsame; reflexivity]. eexists; reflexivity.
+  - destruct (nth_error (execs s) x) as [[[c [[ce cs] ti]] st]|]; [|apply Hsame; reflexivity].
+    apply Hsame; cbn. now rewrite deliver_execs.
+Qed.
+Lemma fold_execs fl clk ops s : exists z, execs (fold_left (step sz fl clk) ops s) = execs s ++ z.
+Proof.
+  revert s; induction ops as [|o r IH]; intro s; cbn [fold_left].
+  - exists []; now rewrite app_nil_r.
+  - destruct (step_execs fl clk s o) as [x Hx]. destruct (IH (step sz fl clk s o)) as [y Hy].
+    exists (x ++ y). now rewrite Hy, Hx, app_assoc.
 Qed.
 Lemma fold_mono fl clk ops s :
   (exists x, sws (fold_left (step sz fl clk) ops s) = sws s ++ x) /\
@@ -1117,6 +1213,117 @@ Proof.
     { intros ->. apply kfind_some in Ej. apply kfind_some in Hkx. congruence. }
     now rewrite nth_error_upd_other.
   - apply call_keys_differ.
+Qed.
+
+(* an execution that began (OBegin) is still on record, with the clock reading
+   taken at its own start, whatever happened since *)
+Lemma begin_persists fl clk root pre c h mid :
+  let s0 := run sz fl clk root pre in
+  nth_error (calls s0) c = Some h ->
+  nth_error (execs (run sz fl clk root (pre ++ OBegin c :: mid))) (length (execs s0)) =
+  Some (c, h, clk (nclk s0)).
+Proof.
+  intros s0 Hc. rewrite run_app. cbn [fold_left]. fold s0.
+  destruct (fold_execs fl clk mid (step sz fl clk s0 (OBegin c))) as [z Hz]. rewrite Hz.
+  cbn [step]. rewrite Hc. cbn [execs set_nclk set_execs].
+  rewrite <- app_assoc, nth_error_app2, Nat.sub_diag by lia. reflexivity.
+Qed.
+
+(* the end of an execution, in any state *)
+Lemma end_spec fl clk root pre x b c ce cs ti st :
+  let s := run sz fl clk root pre in
+  nth_error (execs s) x = Some (c, (ce, cs, ti), st) ->
+  let s' := step sz fl clk s (OEnd x b) in
+  exists cc, nth_error (e_execs (senv_of fl clk root pre)) x = Some (cc, st) /\
+    fruns s' = fruns s ++ [(c, b)] /\
+    rets s' = rets s ++ [b] /\
+    nclk s' = S (nclk s) /\
+    delivered fl s' (records fl clk root pre ++ [(call_lat_key cc, sat64 (clk (nclk s) - st))]) /\
+    let kx := if b then call_err_key cc else call_ok_key cc in
+    pend_of s' kx = wrap64 (pend_of s kx + 1) /\
+    (forall k, k <> kx -> pend_of s' k = pend_of s k).
+Proof.
+  intros s Hx s'. destruct (run_sim fl clk root pre) as [HS HD]. fold s in HS, HD.
+  pose proof (Forall2_nth _ _ _ x (sim_execs _ _ HS)) as Hn. rewrite Hx in Hn.
+  destruct (nth_error (e_execs (senv_of fl clk root pre)) x) as [[cc st']|] eqn:Ecc; [|contradiction].
+  destruct Hn as [Hst (Herr & Hok & Hlat)]. cbn [fst snd] in Hst, Herr, Hok, Hlat. subst st'.
+  exists cc. split; [reflexivity|].
+  destruct (step_sim fl clk s _ _ (OEnd x b) HS HD) as [_ [Hd' _]]. fold s' in Hd'.
+  cbn [sstep] in Hd'. rewrite Ecc in Hd'. cbn [snd] in Hd'. rewrite <- (sim_clk _ _ HS) in Hd'.
+  subst s'. cbn [step]. rewrite Hx.
+  set (s1 := set_fruns (set_nclk s (S (nclk s))) (fruns s ++ [(c, b)])).
+  set (d := sat64 (clk (nclk s) - st)).
+  set (s2 := deliver fl s1 ti d).
+  assert (Ext s1 s2) as HE2.
+  { assert (DelI fl s1 (records fl clk root pre)) as HD1 by (apply (DelI_same _ s); auto).
+    exact (proj1 (deliver_spec fl _ ti (call_lat_key cc) d _ HD1 Hlat)). }
+  assert (counters s2 = counters s) as Hcs by (unfold s2; now rewrite deliver_counters).
+  set (idx := if b then ce else cs).
+  set (kx := if b then call_err_key cc else call_ok_key cc).
+  assert (kfind kx (ckeys s) = Some idx) as Hkx by (unfold kx, idx; destruct b; assumption).
+  split; [|split; [|split; [|split; [|split]]]].
+  - cbn. now rewrite (x_fruns _ _ HE2).
+  - cbn. now rewrite (x_rets _ _ HE2).
+  - cbn. now rewrite (x_nclk _ _ HE2).
+  - cbn [step] in Hd'. rewrite Hx in Hd'. exact Hd'.
+  - unfold pend_of, ckeys. cbn [counters set_rets inc_counter set_counters]. rewrite Hcs.
+    rewrite map_upd_inv by reflexivity. fold (ckeys s). rewrite Hkx.
+    pose proof (kfind_some _ _ _ Hkx) as Hnth. unfold ckeys in Hnth. rewrite nth_error_map in Hnth.
+    destruct (nth_error (counters s) idx) as [co|] eqn:Eco; [|discriminate].
+    rewrite (nth_error_upd_same _ _ _ _ Eco). reflexivity.
+  - intros k Hk. unfold pend_of, ckeys. cbn [counters set_rets inc_counter set_counters]. rewrite Hcs.
+    rewrite map_upd_inv by reflexivity. fold (ckeys s).
+    destruct (kfind k (ckeys s)) as [j|] eqn:Ej; [|reflexivity].
+    assert (idx <> j) as Hne.
+    { intros ->. apply kfind_some in Ej. apply kfind_some in Hkx. congruence. }
+    now rewrite nth_error_upd_other.
+Qed.
+
+Lemma sstep_execs fl clk e o : exists z, e_execs (fst (sstep fl clk e o)) = e_execs e ++ z.
+Proof.
+  destruct o; cbn [sstep];
+    repeat match goal with
+           | |- context [match ?x with _ => _ end] => destruct x
+           end; cbn [fst e_execs e_with_reg]; try (exists []; now rewrite app_nil_r); eexists; reflexivity.
+Qed.
+Lemma sfold_execs fl clk ops e : exists z, e_execs (fst (sfold fl clk e ops)) = e_execs e ++ z.
+Proof.
+  revert e; induction ops as [|o r IH]; intro e; cbn [sfold fst].
+  - exists []; now rewrite app_nil_r.
+  - destruct (sstep_execs fl clk e o) as [x Hx]. destruct (IH (fst (sstep fl clk e o))) as [y Hy].
+    exists (x ++ y). now rewrite Hy, Hx, app_assoc.
+Qed.
+
+(* overlapping executions: whatever happens between the beginning and the end
+   of an execution - other executions on the same Call included - its end
+   records the time since ITS OWN beginning, runs / returns / counts once *)
+Lemma exec_overlap fl clk root pre c h mid b cc :
+  let s0 := run sz fl clk root pre in
+  nth_error (calls s0) c = Some h ->
+  nth_error (e_calls (senv_of fl clk root pre)) c = Some cc ->
+  let s1 := run sz fl clk root (pre ++ OBegin c :: mid) in
+  let s' := step sz fl clk s1 (OEnd (length (execs s0)) b) in
+  fruns s' = fruns s1 ++ [(c, b)] /\
+  rets s' = rets s1 ++ [b] /\
+  nclk s' = S (nclk s1) /\
+  delivered fl s' (records fl clk root (pre ++ OBegin c :: mid) ++
+                   [(call_lat_key cc, sat64 (clk (nclk s1) - clk (nclk s0)))]) /\
+  let kx := if b then call_err_key cc else call_ok_key cc in
+  pend_of s' kx = wrap64 (pend_of s1 kx + 1) /\
+  (forall k, k <> kx -> pend_of s' k = pend_of s1 k).
+Proof.
+  intros s0 Hc Hcc s1 s'. destruct h as [[ce cs] ti].
+  pose proof (begin_persists fl clk root pre c (ce, cs, ti) mid Hc) as Hx. fold s0 s1 in Hx.
+  destruct (end_spec fl clk root (pre ++ OBegin c :: mid) (length (execs s0)) b c ce cs ti (clk (nclk s0)) Hx)
+    as (cc' & Hcc' & H1 & H2 & H3 & H4 & H5).
+  assert (cc' = cc) as ->.
+  { destruct (run_sim fl clk root pre) as [HS0 _]. fold s0 in HS0.
+    unfold senv_of in Hcc'. rewrite sfold_app in Hcc'. cbn [fst sfold] in Hcc'. fold (senv_of fl clk root pre) in Hcc'.
+    destruct (sfold_execs fl clk mid (fst (sstep fl clk (senv_of fl clk root pre) (OBegin c)))) as [z Hz].
+    rewrite Hz in Hcc'. cbn [sstep] in Hcc'. rewrite Hcc in Hcc'. cbn [fst e_execs] in Hcc'.
+    rewrite (Forall2_len _ _ _ (sim_execs _ _ HS0)) in Hcc'.
+    rewrite <- app_assoc, nth_error_app2, Nat.sub_diag in Hcc' by lia. cbn in Hcc'. congruence. }
+  fold s1 s' in H1, H2, H3, H4, H5. repeat split; try assumption; apply H5.
 Qed.
 
 (* a report pass hands every non-zero counter to the reporter and resets it *)
